@@ -209,15 +209,31 @@ func parseZone(c *zoneCase, files map[string]string, limit int) ([]dns.RR, error
 		}
 		r.err = zp.Err()
 	}()
+	// 20 s for ordinary zones (they parse in milliseconds), 2 s more per expected 10 000 records
+	wd := 20*time.Second + time.Duration(limit/10000)*2*time.Second
 	select {
 	case r := <-done:
 		return r.out, r.err
-	case <-time.After(parseWatchdog):
-		return nil, fmt.Errorf("the parser did not return within %v", parseWatchdog)
+	case <-time.After(wd):
+		hangSeen = true
+		return nil, fmt.Errorf("the parser did not return within %v", wd)
 	}
 }
 
-var parseWatchdog = 120 * time.Second
+// hangSeen is set when the watchdog fired during the current case: the violation is then reported
+// as it is (pbt.NoShrink), every further execution would leave another spinning goroutine behind.
+var hangSeen bool
+
+func noShrink[C any](f func(C) error) func(C) error {
+	return func(c C) error {
+		hangSeen = false
+		err := f(c)
+		if err != nil && hangSeen {
+			return pbt.NoShrink{Err: err}
+		}
+		return err
+	}
+}
 
 func nontrivialZone(z *zm.Zone) bool {
 	check := func(items []zm.Item) bool {
@@ -831,13 +847,13 @@ func genFollow(t *rapid.T) followCase {
 // ---------------------------------------------------------------------------------------------
 
 func init() {
-	pbt.Register(pbt.Sub[zoneCase]{Name: "zones", Weight: 30, Gen: genZoneCase, Check: checkZone})
-	pbt.Register(pbt.Sub[zoneCase]{Name: "generate", Weight: 3, Gen: genGenerateCase, Check: checkZone})
-	pbt.Register(pbt.Sub[zoneCase]{Name: "includes", Weight: 8, Gen: genIncludeCase, Check: checkZone})
-	pbt.Register(pbt.Sub[newRRCase]{Name: "newrr", Weight: 5, Gen: genNewRR, Check: checkNewRR})
-	pbt.Register(pbt.Sub[followCase]{Name: "type-followed", Weight: 2, Gen: genFollow, Check: checkFollow})
-	pbt.RegisterEnum(pbt.Enum[limitCase]{Name: "generate-limit", Exhaustive: true, Each: eachLimit, Check: checkLimit})
-	pbt.RegisterEnum(pbt.Enum[followCase]{Name: "every-type-followed", Exhaustive: true, Each: eachFollow, Check: checkFollow})
+	pbt.Register(pbt.Sub[zoneCase]{Name: "zones", Weight: 30, Gen: genZoneCase, Check: noShrink(checkZone)})
+	pbt.Register(pbt.Sub[zoneCase]{Name: "generate", Weight: 3, Gen: genGenerateCase, Check: noShrink(checkZone)})
+	pbt.Register(pbt.Sub[zoneCase]{Name: "includes", Weight: 8, Gen: genIncludeCase, Check: noShrink(checkZone)})
+	pbt.Register(pbt.Sub[newRRCase]{Name: "newrr", Weight: 5, Gen: genNewRR, Check: noShrink(checkNewRR)})
+	pbt.Register(pbt.Sub[followCase]{Name: "type-followed", Weight: 2, Gen: genFollow, Check: noShrink(checkFollow)})
+	pbt.RegisterEnum(pbt.Enum[limitCase]{Name: "generate-limit", Exhaustive: true, Each: eachLimit, Check: noShrink(checkLimit)})
+	pbt.RegisterEnum(pbt.Enum[followCase]{Name: "every-type-followed", Exhaustive: true, Each: eachFollow, Check: noShrink(checkFollow)})
 
 	// finding #13: an IPSECKEY record followed by any line fails the whole parse
 	pbt.Probe(kIPSECKEY, func() error {
